@@ -900,6 +900,11 @@ def struct_unpack(ctx, fmt, data, offset, exact):
             pos = pos + w
             continue
         width, signed = _FMT_WIDTH[code]
+        direct = _unpack_peephole(ctx, d.t, pos, width, signed, big)
+        if direct is not None:
+            res.append(SInt(direct))
+            pos = pos + width
+            continue
         ctx.assume(sym.byte_range_facts(d.t, pos, width), silent=True)
         if big:
             acc = sym.bytes_to_int_be(d.t, pos, width, signed)
@@ -912,6 +917,38 @@ def struct_unpack(ctx, fmt, data, offset, exact):
         res.append(SInt(acc))
         pos = pos + width
     return tuple(res)
+
+
+def _unpack_peephole(ctx, seq_t, pos, width, signed, big):
+    """If the `width` bytes at `pos` are exactly the big-endian digits of some term x produced by the integer packer
+    (and x is provably in the type's range), unpack yields x itself: unpack(pack(x)) == x without digit arithmetic."""
+    if not big:
+        return None
+    piece = sym.rope_subseq(seq_t, z3.simplify(pos if z3.is_expr(pos) else sym.as_int_term(pos)), z3.IntVal(width))
+    if piece is None:
+        return None
+    els = sym.flatten_units(piece)
+    if els is None or len(els) != width:
+        return None
+    last = els[-1]
+    if not (z3.is_app(last) and last.decl().kind() == z3.Z3_OP_MOD and z3.is_int_value(last.arg(1)) and last.arg(1).as_long() == 256):
+        return None
+    u = last.arg(0)       # candidate unsigned value
+    for k in range(width):
+        want = sym._div_const(u, 1 << (8 * (width - 1 - k))) % 256
+        if not els[k].eq(want):
+            return None
+    if signed:
+        # u is If(x < 0, x + 2^N, x) for the packed x
+        if z3.is_app(u) and u.decl().kind() == z3.Z3_OP_ITE:
+            x = u.arg(2)
+            lo, hi = -(1 << (8 * width - 1)), (1 << (8 * width - 1)) - 1
+            if sym.proves(ctx, z3.And(x >= lo, x <= hi, u == z3.If(x < 0, x + (1 << (8 * width)), x))):
+                return x
+        return None
+    if sym.proves(ctx, z3.And(u >= 0, u < (1 << (8 * width)))):
+        return u
+    return None
 
 
 @register(struct.pack)
@@ -1660,3 +1697,23 @@ def builtin_method_on_sobj(obj, name, raw):
     if name == '__hash__':
         return _M(lambda: id(obj), '__hash__')
     raise Unsupported('builtin method %s on interpreted object' % name)
+
+
+import uuid as _uuid
+
+
+@register(_uuid.UUID)
+def _m_uuid(ctx, *a, **k):
+    """E-UUID: UUID(bytes=b) for a 16-byte b is a value whose .bytes is b (ValueError otherwise)."""
+    from .interp import SObj, deep_concrete, PyExc, py_raise
+    if deep_concrete(a) and deep_concrete(k):
+        try:
+            return _uuid.UUID(*a, **k)
+        except Exception as e:
+            raise PyExc(e)
+    if a or set(k) != {'bytes'}:
+        raise Unsupported('uuid.UUID with symbolic arguments other than bytes=')
+    b = lift(k['bytes'])
+    if not ctx.branch(z3.Length(b.t) == 16):
+        py_raise(ValueError('bytes is not a 16-char string'))
+    return SObj(_uuid.UUID, {'bytes': b})
